@@ -72,10 +72,21 @@ func seedBalances(bal map[string]map[string]int64, b binding) []*ledger.ChainedL
 	return out
 }
 
+// symbols outside the binding's table (the accounts of the wide lists) get a name derived from the symbol
+func acctOf(b binding, sym string) string {
+	if a, ok := b.acct[sym]; ok {
+		return a
+	}
+	if b.name == "odd-forms" {
+		return "wide:" + sym + ":x_1"
+	}
+	return "wide:" + sym
+}
+
 func concrete(ps []post, b binding) ledger.Postings {
 	out := ledger.Postings{}
 	for _, p := range ps {
-		out = append(out, ledger.NewPosting(b.acct[p.Src], b.acct[p.Dst], b.asset[p.Asset], new(big.Int).Mul(big.NewInt(p.Amt), b.factor)))
+		out = append(out, ledger.NewPosting(acctOf(b, p.Src), acctOf(b, p.Dst), b.asset[p.Asset], new(big.Int).Mul(big.NewInt(p.Amt), b.factor)))
 	}
 	return out
 }
@@ -125,6 +136,11 @@ func submit(entry string, c c09case, b binding) c09obs {
 	md := metadata.Metadata{"purpose": "c09", "k": "v"}
 	ref := "ref-001"
 	before := len(st.Logs())
+	// "bulk-after": the postings follow, in one bulk, an element rich in everything they leave out
+	// (reference, timestamp, other metadata keys, other accounts): nothing of it may end up in them
+	bare := entry == "bulk-after"
+	decoyTime := ledger.Time{Time: time.Date(2031, 1, 2, 3, 4, 5, 0, time.UTC)}
+	decoyOK := false
 	var got *ledger.Transaction
 	var err error
 	func() {
@@ -139,6 +155,10 @@ func submit(entry string, c c09case, b binding) c09obs {
 				ledger.TxToScriptData(ledger.TransactionData{Postings: want, Metadata: md, Reference: ref, Timestamp: fixedTime}, false))
 		default:
 			body, _ := json.Marshal(map[string]any{"postings": want, "metadata": md, "reference": ref, "timestamp": fixedTime})
+			if bare {
+				md = metadata.Metadata{"purpose": "c09"}
+				body, _ = json.Marshal(map[string]any{"postings": want, "metadata": md})
+			}
 			url := "/api/ledger/v2/l1/transactions"
 			payload := string(body)
 			if entry == "v1" {
@@ -148,20 +168,45 @@ func submit(entry string, c c09case, b binding) c09obs {
 				url = "/api/ledger/v2/l1/_bulk"
 				payload = `[{"action":"CREATE_TRANSACTION","data":` + string(body) + `}]`
 			}
+			if bare {
+				url = "/api/ledger/v2/l1/_bulk?continueOnFailure=true"
+				decoy, _ := json.Marshal(map[string]any{"postings": []any{map[string]any{"source": "world", "destination": "decoy:account", "amount": 7, "asset": "DECOY/2"}},
+					"metadata": map[string]string{"decoy": "1", "k": "decoy"}, "reference": "decoy-ref", "timestamp": decoyTime})
+				payload = `[{"action":"CREATE_TRANSACTION","ik":"decoy-key","data":` + string(decoy) + `},{"action":"CREATE_TRANSACTION","data":` + string(body) + `}]`
+			}
 			r := newRouter(&apiback.Backend{Rec: &apiback.Recorder{}, Writers: map[string]apiback.Writer{"*": cmd}}, false)
 			req := httptest.NewRequest("POST", url, strings.NewReader(payload))
 			req.Header.Set("Content-Type", "application/json")
 			w := httptest.NewRecorder()
 			r.ServeHTTP(w, req)
-			if w.Code >= 300 {
-				err = fmt.Errorf("http %d %s", w.Code, strings.TrimSpace(w.Body.String()))
-				return
-			}
 			var resp struct {
 				Data json.RawMessage `json:"data"`
 			}
 			_ = json.Unmarshal(w.Body.Bytes(), &resp)
 			raw := resp.Data
+			if bare {
+				var rs []struct {
+					Data      json.RawMessage `json:"data"`
+					ErrorCode string          `json:"errorCode"`
+				}
+				_ = json.Unmarshal(resp.Data, &rs)
+				decoyOK = len(rs) >= 1 && rs[0].ErrorCode == "" && len(rs[0].Data) > 0
+				if len(rs) != 2 || rs[1].ErrorCode != "" || len(rs[1].Data) == 0 {
+					err = fmt.Errorf("bulk element failed (http %d)", w.Code)
+					return
+				}
+				tx := &ledger.Transaction{}
+				if e := json.Unmarshal(rs[1].Data, tx); e != nil {
+					err = fmt.Errorf("cannot read the answered transaction: %v", e)
+					return
+				}
+				got = tx
+				return
+			}
+			if w.Code >= 300 {
+				err = fmt.Errorf("http %d %s", w.Code, strings.TrimSpace(w.Body.String()))
+				return
+			}
 			if entry == "bulk" {
 				var rs []struct {
 					Data      json.RawMessage `json:"data"`
@@ -189,6 +234,14 @@ func submit(entry string, c c09case, b binding) c09obs {
 		}
 	}()
 	o.LogsAdded = len(st.Logs()) - before
+	if bare {
+		if !decoyOK {
+			o.Detail = "the first element of the bulk (a plain world -> decoy:account transaction) was not committed"
+			o.LogsAdded = -1
+			return o
+		}
+		o.LogsAdded-- // the decoy's own entry
+	}
 	if err != nil {
 		o.Detail = err.Error()
 		return o
@@ -196,8 +249,14 @@ func submit(entry string, c c09case, b binding) c09obs {
 	o.Accepted = true
 	o.PostsExact = samePostings(got.Postings, want)
 	o.RestExact = got.Reference == ref && got.Timestamp.Equal(fixedTime) && got.Metadata["purpose"] == "c09" && got.Metadata["k"] == "v" && len(got.Metadata) == 2
+	if bare {
+		o.RestExact = got.Reference == "" && !got.Timestamp.Equal(decoyTime) && got.Metadata["purpose"] == "c09" && len(got.Metadata) == 1
+	}
 	if tx, ok := lastTx(st); ok && o.LogsAdded == 1 {
 		o.LogExact = samePostings(tx.Postings, want) && tx.Reference == ref && tx.Timestamp.Equal(fixedTime) && len(tx.Metadata) == 2
+		if bare {
+			o.LogExact = samePostings(tx.Postings, want) && tx.Reference == "" && !tx.Timestamp.Equal(decoyTime) && len(tx.Metadata) == 1
+		}
 	}
 	if !o.PostsExact {
 		b, _ := json.Marshal(got.Postings)
@@ -229,7 +288,7 @@ func modeC09(in, out, stats string) {
 		for _, b := range bindings {
 			obs = append(obs, submit("commander", c, b))
 		}
-		for i, e := range []string{"v2", "v1", "bulk"} {
+		for i, e := range []string{"v2", "v1", "bulk", "bulk-after"} {
 			obs = append(obs, submit(e, c, bindings[(n+i)%len(bindings)]))
 		}
 		for _, o := range obs {
